@@ -1,10 +1,6 @@
 // C08 — the ordered-set utility stays a valid red-black tree for any insertions.
 // Real code under test: ipr::util::rb_tree::{core::rotate_left,rotate_right,fixup_insert, chain::find/insert, container::find/insert}
-#include "/repo/src/utility.cxx"
-#include "/repo/src/impl.cxx"
-#include "/repo/src/traversal.cxx"
-#include "vp.h"
-using namespace ipr;
+#include "common.h"
 namespace rb = ipr::util::rb_tree;
 
 #ifndef C08_N
